@@ -248,7 +248,7 @@ def run_case(case):
                     if t.exception() is not None:
                         raise t.exception()
                 await asyncio.sleep(5)
-                await asyncio.wait_for(server.close(), 1e4)
+                await common.close_server(server)
 
             world.run(main())
             gc.collect()
